@@ -431,10 +431,9 @@ def perturb (d : Dom) (old : Val) (mult : Rat) (hint : Option Nat) : Except Err 
   match old.num? with
   | none => .error (.valueError "str * float")
   | some x =>
-    if old = .nzero then
-      -- (-0.0) * multiplier = -0.0; `np.clip` keeps it when 0 is strictly inside the bounds
-      (if d.bounds.1 < 0 ∧ 0 < d.bounds.2 then d.cast .nzero hint
-       else .error (.unsupported "clip of negative zero at a bound"))
+    if old = .nzero ∧ d.bounds.1 ≤ 0 ∧ 0 ≤ d.bounds.2 then
+      -- (-0.0) * multiplier = -0.0, which `np.clip` keeps whenever 0 lies within the bounds
+      d.cast .nzero hint
     else d.cast (.rat (clipRat (x * mult) d.bounds.1 d.bounds.2)) hint
 
 /-- the loop of `PopulationBasedTraining._explore` over the hyperparameters (in
